@@ -359,6 +359,7 @@ impl Scenario for DigestStream {
             }
             ctx.seq = seq;
             let op = jstr(ev, "op").to_string();
+            ctx.crumb(&op);
             match op.as_str() {
                 "new" => {
                     match guard(|| Sink::new(jstr(ev, "kind"), &jhex(ev, "key"))) {
